@@ -1074,6 +1074,19 @@ var c09Handmade = []string{
 	"echo @(a|b) +(c) <(d) >(e)",
 	"a >b 2>&1 <c >>d <<<e",
 	">a b",
+	"\xef\xbb\xbfecho hi",
+	"\xef\xbb\xbf\necho hi",
+	"\xef\xbb\xbf#!/bin/sh\necho hi # c",
+	"\xef\xbb\xbf echo \xef\xbb\xbf hi",
+	"\x00echo hi",
+	"\x00\x00\n\x00echo hi",
+	"\r\necho hi",
+	"\recho hi",
+	"\n\n  \t echo hi",
+	"#!/bin/sh\r\necho hi",
+	"é echo hi",
+	"日本=1 echo hi",
+	"# \xff invalid\necho hi",
 	"! >f foo | bar",
 	"! 2>&1 foo bar | baz | qux",
 	"if ! <in grep -q x | tail; then a; fi",
@@ -1266,6 +1279,24 @@ func c09RedirStmt(r *Rand, bash bool) string {
 	}
 }
 
+// c09Prefix puts unusual bytes in front of the first token (and, for the BOM, also between tokens):
+// byte order mark, NUL bytes, CR / CRLF, multi-byte characters, invalid UTF-8, blank lines, spaces,
+// tabs, #! lines.  Every one of these bytes counts as one column (a newline starts line+1, column 1).
+func c09Prefix(r *Rand, src string) string {
+	pre := ""
+	for i, k := 0, 1+r.Intn(3); i < k; i++ {
+		pre += r.Pick([]string{"\xef\xbb\xbf", "\xef\xbb\xbf", "\x00", "\x00\x00", "\r\n", "\n", "\n\n", " ", "\t", "  \t",
+			"#!/bin/sh\n", "#!/usr/bin/env bash\r\n", "# c\n", "é", "日本", "\xff", "\xc3", "\r", "\xef\xbb\xbf "})
+	}
+	if r.Chance(30) {
+		// a BOM after some blank inside the program as well
+		if i := strings.IndexAny(src, " \n"); i >= 0 {
+			src = src[:i+1] + "\xef\xbb\xbf" + src[i+1:]
+		}
+	}
+	return pre + src
+}
+
 func c09Sources(c *Ctx) (srcs []string, tags [][]string) {
 	add := func(s string, t ...string) {
 		srcs = append(srcs, s)
@@ -1295,6 +1326,9 @@ func c09Sources(c *Ctx) (srcs []string, tags [][]string) {
 		default:
 			s, t := c09Hostile(c.R, base, os.Getenv("C09_INSIDE") != "" || c.R.Chance(15))
 			add(s, append([]string{kind}, t...)...)
+		}
+		if c.R.Chance(20) {
+			add(c09Prefix(c.R, srcs[len(srcs)-1]), "src=odd-prefix")
 		}
 		if c.R.Chance(30) {
 			// redirections before the command word, negation, pipelines, in every compound position
@@ -1326,7 +1360,7 @@ func c09Sources(c *Ctx) (srcs []string, tags [][]string) {
 
 func c09(c *Ctx) {
 	c.Rule = "sources: hand-made programs covering every node type, the repository's own test inputs, grammar-generated programs; 70% made position-hostile " +
-		"(CRLF, NUL bytes, backslash-newline between tokens, tabs, multi-byte runes inside words); 30% followed by a statement with redirections before the command word / negation / pipelines in a compound position; a quarter followed by quoted text / comments / here-documents holding a backslash-newline with further tokens on the same line; each parsed in all five variants with comments kept; " +
+		"(CRLF, NUL bytes, backslash-newline between tokens, tabs, multi-byte runes inside words); 20% repeated behind an unusual prefix (BOM, NUL, CR/CRLF, multi-byte, invalid UTF-8, blank lines, #!); 30% followed by a statement with redirections before the command word / negation / pipelines in a compound position; a quarter followed by quoted text / comments / here-documents holding a backslash-newline with further tokens on the same line; each parsed in all five variants with comments kept; " +
 		"non-trivial = parsed tree has ≥ 6 nodes; distinct by (variant, source); plus boundary/random Pos arithmetic cases"
 	c09PosTie(c)
 	types := allNodeStructs()
